@@ -31,6 +31,11 @@ type Obl struct {
 
 // Eng runs the symbolic execution of one function.
 type Eng struct {
+	litScan map[*ast.FuncLit]bool
+	privUntil map[types.Object]token.Pos
+	curPos token.Pos
+	inDefer int
+	leakScan map[*FuncInfo]bool
 	u    *Universe
 	pkg  *packages.Package
 	info *types.Info
@@ -337,9 +342,6 @@ func (e *Eng) heapSet(st *State, key, term string) {
 func (e *Eng) heapHavoc(st *State, key string) {
 	e.heapGet(st, key)
 	st.heap[key] = e.newSym("H_"+sanitize(key), e.heapSort(key))
-	if strings.Contains(key, "Ref") || strings.HasSuffix(key, "#ref") {
-		st.tainted = true
-	}
 }
 
 // havocAllHeaps forgets every heap location except the keys for which keep returns true.
@@ -387,6 +389,7 @@ func (e *Eng) loadLoc(st *State, base string, idxs []string, t types.Type) Val {
 		v := Val{K: KSlice, Ref: g("#ref"), Off: g("#off"), Len: g("#len"), Cap: g("#cap"), GoT: t}
 		e.sliceFacts(st, v)
 		e.refOrigin(st, v.Ref)
+		e.privFacts(st, v.Ref)
 		return v
 	}
 	term := nestSelect(e.heapGet(st, base), idxs)
@@ -493,6 +496,10 @@ func (e *Eng) sliceFacts(st *State, v Val) {
 		return
 	}
 	e.assumeOnce(st, fmt.Sprintf("(and (<= 0 %s) (<= %s %s) (<= 0 %s) (<= %s 4611686018427387904) (<= %s 4611686018427387904))", v.Len, v.Len, v.Cap, v.Off, v.Cap, v.Off))
+	// a nil slice header is all zeroes
+	if !isLiteralTerm(v.Ref) && !strings.Contains(v.Ref, "q.") {
+		e.assumeOnce(st, fmt.Sprintf("(=> (= %s 0) (and (= %s 0) (= %s 0) (= %s 0)))", v.Ref, v.Len, v.Cap, v.Off))
+	}
 }
 
 // ---------- symbolic values for types ----------
@@ -504,10 +511,6 @@ func (e *Eng) symFor(name string, t types.Type, st *State) Val {
 			Ref: e.newSym(name+".ref", "Int"), Off: e.newSym(name+".off", e.idxSort()),
 			Len: e.newSym(name+".len", e.idxSort()), Cap: e.newSym(name+".cap", e.idxSort())}
 		e.sliceFacts(st, v)
-		// a nil slice has length 0
-		if !e.bv {
-			st.assume(fmt.Sprintf("(=> (= %s 0) (and (= %s 0) (= %s 0) (= %s 0)))", v.Ref, v.Len, v.Cap, v.Off))
-		}
 		return v
 	case KTuple:
 		tup := t.Underlying().(*types.Tuple)
